@@ -283,29 +283,40 @@ impl<'a> Iterator for Lexer<'a> {
                                 '0' => '\0',
                                 'r' => '\r',
                                 'u' => {
-                                    if iter.next() != Some('{') {
+                                    // Only consume characters that belong to the escape
+                                    // `\u{<hex digits>}`. Anything else is left for the main
+                                    // loop: this keeps `self.l` in sync with the iterator, and
+                                    // keeps this lexer's idea of where the string ends the
+                                    // same as the bracket pre-scan in `Self::build`.
+                                    if iter.clone().next() != Some('{') {
                                         // TODO error
                                         continue;
                                     }
+                                    iter.next();
                                     self.l += '{'.len_utf8();
-                                    let mut i = 0;
+                                    let mut i: Option<u32> = Some(0);
                                     let mut valid = true;
                                     loop {
-                                        let Some(n) = iter.next() else {
-                                            // TODO: error in this case?
-                                            return None;
-                                        };
-                                        self.l += n.len_utf8();
-                                        if n == '}' {
-                                            // TODO: error if no number was provided.
-                                            break;
-                                        }
-                                        match n.to_digit(16) {
-                                            None => {
-                                                valid = false;
+                                        match iter.clone().next() {
+                                            Some('}') => {
+                                                // TODO: error if no number was provided.
+                                                iter.next();
+                                                self.l += '}'.len_utf8();
+                                                break;
                                             }
-                                            Some(d) => {
-                                                i = i * 16 + d;
+                                            Some(n) if n.is_ascii_hexdigit() => {
+                                                iter.next();
+                                                self.l += n.len_utf8();
+                                                let d = n.to_digit(16).expect("n is a hex digit");
+                                                // Too many digits: not a valid scalar value.
+                                                i = i.and_then(|i| {
+                                                    i.checked_mul(16)?.checked_add(d)
+                                                });
+                                            }
+                                            _ => {
+                                                // TODO: error in this case?
+                                                valid = false;
+                                                break;
                                             }
                                         }
                                     }
@@ -313,7 +324,7 @@ impl<'a> Iterator for Lexer<'a> {
                                         // TODO: error
                                         continue;
                                     }
-                                    let Some(c) = char::from_u32(i) else {
+                                    let Some(c) = i.and_then(char::from_u32) else {
                                         // TODO: error
                                         continue;
                                     };
